@@ -1587,6 +1587,41 @@ def rule_r16(repo, run):
                                                                      check.split(".")[-1]), gm.loc(fn))
 
 
+
+def rule_r18(repo, run):
+    R = run.rule("C17.R18", "the first level of splicer_code names the wrappers (c, f, py, lua) and holds dictionaries: the arm that "
+                            "refuses anything else there comes before every arm that stores a list of lines")
+    am = repo.module("ast")
+    fn = am.func("listify_splicer_code")
+    chains = [i for i in ast.walk(fn) if isinstance(i, ast.If) and not (isinstance(getattr(i, "_parent", None), ast.If) and i in i._parent.orelse)]
+    arms = []
+    for ch in chains:
+        cur, lst = ch, []
+        while True:
+            lst.append((cur.test, cur.body))
+            if len(cur.orelse) == 1 and isinstance(cur.orelse[0], ast.If):
+                cur = cur.orelse[0]
+            else:
+                if cur.orelse:
+                    lst.append((None, cur.orelse))
+                break
+        if len(lst) > len(arms):
+            arms = lst
+    level0 = [k for k, (t, b) in enumerate(arms) if t is not None and re.search(r"level\s*==\s*0", ast.unparse(t))
+              and any(isinstance(x, ast.Raise) for st in b for x in ast.walk(st))]
+    if len(level0) != 1:
+        raise AnalysisError("C17.R18: the `level == 0` arm of listify_splicer_code was not found")
+    for k, (t, b) in enumerate(arms):
+        stores = [a for st in b for a in ast.walk(st) if isinstance(a, ast.Assign) and isinstance(a.targets[0], ast.Subscript)
+                  and not (isinstance(a.value, ast.Call) and "listify_splicer_code" in ast.unparse(a.value.func))]
+        if not stores:
+            continue
+        label = ast.unparse(t) if t is not None else "else"
+        run.check(R, "ast.listify_splicer_code:arm[%s]" % label, k > level0[0],
+                  "the arm `%s` stores lines for a key and is tried before the `level == 0` test: at the first level (`splicer_code: "
+                  "c:` with nothing behind it) a list is stored where the wrappers expect a dictionary - AttributeError in the "
+                  "wrapper instead of the diagnostic" % label, am.loc(stores[0]))
+
 def loader_modules():
     from sa.loader import PY_MODULES
     return PY_MODULES
@@ -1610,3 +1645,4 @@ def run(repo, run, tier):
     rule_r15(repo, run)
     rule_r12(repo, run)
     rule_r16(repo, run)
+    rule_r18(repo, run)
